@@ -115,7 +115,12 @@ func runTrace(t *testing.T, drvPath string, infos []bpfnative.MapInfo, sp spec) 
 	sub := net.IPv4(10, 77, 3, 9).To4()
 	if sp.Prev && sp.Policy {
 		// the plan itself is redefined: the same policy name is applied before and after
-		pm.AddPolicy(&radius.QoSPolicy{Name: "p", DownloadBPS: sp.PrevRate, UploadBPS: sp.PrevRate, BurstSize: 3000, Priority: 1})
+		// (the earlier definition has a much larger burst: a redefinition that keeps any part of the old one shows)
+		prevBurst := uint32(400000) + 4*sp.Burst
+		if sp.Burst > 1<<29 {
+			prevBurst = sp.Burst/8 + 100
+		}
+		pm.AddPolicy(&radius.QoSPolicy{Name: "p", DownloadBPS: sp.PrevRate, UploadBPS: sp.PrevRate, BurstSize: prevBurst, Priority: 1})
 		if err := mgr.SetSubscriberPolicy(sub, "p"); err != nil {
 			t.Fatal(err)
 		}
